@@ -736,7 +736,7 @@ func famGradients(sh *Shards, n int, stats map[string]int) error {
 		vb   ivg.ViewBox
 		x, y float32
 	}{{ivg.ViewBox{MinX: 0, MinY: 0, MaxX: 0, MaxY: 8}, 5, 1}, {ivg.DefaultViewBox, float32(math.NaN()), float32(math.NaN())},
-		{ivg.DefaultViewBox, float32(math.Inf(1)), 1}, {ivg.DefaultViewBox, 3e38, 1}, {ivg.DefaultViewBox, -3e38, 3e38}, {ivg.DefaultViewBox, 1e10, -1e10}} {
+		{ivg.DefaultViewBox, float32(math.Inf(1)), 1}, {ivg.DefaultViewBox, 3e38, 1}} {
 		var e encode.Encoder
 		e.Reset(d.vb, ivg.DefaultPalette)
 		e.HighResolutionCoordinates = true
@@ -749,7 +749,9 @@ func famGradients(sh *Shards, n int, stats map[string]int) error {
 		if err != nil {
 			return err
 		}
-		nc, acc := traceDecode(sh.Next(), fmt.Sprintf("gradients/non-finite-geometry/%d", di), b, allFlags)
+		fl := allFlags
+		fl.vecAlways = true
+		nc, acc := traceDecode(sh.Next(), fmt.Sprintf("gradients/non-finite-geometry/%d", di), b, fl)
 		count(stats, "gradients", nc, acc)
 	}
 	k := 0
